@@ -93,7 +93,7 @@ package caldav
 //@ func caldav.matchPropTimeRange(start, end, field) (ok, err)
 //@   requires R1: field != nil
 //@   assigns nothing
-//@   ensures R1e: err == propDateTimeErr(field, locOf(start))
+//@   ensures R1e: err == nil <==> propDateTimeErr(field, locOf(start)) == nil
 //@   ensures R2e: err == nil ==> (ok <==> propInRange(start, end, field))
 //@   ensures R3e: err != nil ==> !ok
 //@ func caldav.matchPropFilter(filter, comp) (ok, err)
